@@ -69,7 +69,7 @@ let both s = s ^ "\t" ^ s
 
 let run fn (args : string list) : string =
   match fn, args with
-  | "s.esc", [h] ->
+  | ("s.esc" | "j.escape"), [h] ->   (* j.escape: the Escape/AppendEscape cases of the main C01 harness, same observable *)
       let s = bytes_of_hex h in
       hex_opt (escape_flags (z_of_int 1) s) ^ " " ^ hex_opt (escape_flags Z0 s)
       ^ "\t" ^ hex_of_bytes (std_escape true s) ^ " " ^ hex_of_bytes (std_escape false s)
